@@ -80,7 +80,7 @@ package daemon
 //@ # the node agent reports a teardown it did not process itself only for a pod it verified to be gone
 //@ guard mapupdate CNIStatus in cleanRuntimeNode: key != "deleted" || c03absent
 
-//@ for C04 C09
+//@ for C04 C05 C09
 
 //@ # ---- one request per pod at a time: a request that finds the pod's in-flight marker set has no effect ----
 //@ ghost c04busy bool = false
@@ -93,6 +93,8 @@ package daemon
 //@ # the service lock: held shared by request handlers, exclusively by the pod GC
 //@ ghost c09r bool = false
 //@ ghost c09w bool = false
+//@ # some release of the pod's addresses failed on this path
+//@ ghost c05relerr bool = false
 
 //@ func networkService.AllocIP
 //@   requires n != nil && r != nil && n.k8s != nil && n.eniMgr != nil && n.resourceDB != nil
@@ -115,6 +117,8 @@ package daemon
 //@ func networkService.ReleaseIP
 //@   requires n != nil && r != nil && n.k8s != nil && n.eniMgr != nil && n.resourceDB != nil
 //@   at call Map.LoadOrStore: ghost c04busy = result1
+//@   at call Manager.Release: ghost c05relerr = (c05relerr || result != nil)
+//@   loop 1 invariant !c05relerr
 //@   at call RWMutex.RLock: ghost c09r = true
 //@   at call RWMutex.RUnlock: ghost c09r = false
 //@   ensures c04busy ==> result0 == nil && result1 != nil
@@ -185,3 +189,11 @@ package daemon
 //@ guard call Manager.Release in ReleaseIP: c09r
 //@ guard call deletePodResource in ReleaseIP: c09r
 //@ guard call getPodResource in GetIPInfo: c09r
+
+//@ for C05
+
+//@ # ---- durability order in the request handlers ----
+//@ # DEL: the record is deleted only after every address of the pod went back to the pool (a crash in between leaves a
+//@ # record whose replay releases again; the reverse order would leak the address)
+//@ guard call deletePodResource in ReleaseIP: !c05relerr
+//@ # ADD: the reply is sent only after the record was written (postcondition of AllocIP above: result1 == nil ==> c04put)
